@@ -118,6 +118,8 @@ def decode_value(x, ver3=True):
             raise BadEncoding('bad ref %r' % x)
         return ('ref', m.group(1), m.group(3) if m.group(2) is not None else None)
     if p == 'd':
+        if not _re.fullmatch(DATE, body, _re.A):
+            raise BadEncoding('bad date %r (YYYY-MM-DD)' % x)
         y, mo, d = body.split('-')
         return ('date', int(y), int(mo), int(d))
     if p == 'h':
@@ -137,6 +139,8 @@ def decode_value(x, ver3=True):
         local = _dt.datetime(y, mo, d, hh, mi, ss, us)
         return ('datetime', local - _dt.timedelta(seconds=secs), secs)
     if p == 'c':
+        if not _re.fullmatch(r'-?\d+(\.\d+)?,-?\d+(\.\d+)?', body, _re.A):
+            raise BadEncoding('bad coordinate %r' % x)
         la, lo = body.split(',')
         return ('coord', float(la), float(lo))
     if p == 'x':
